@@ -1,6 +1,7 @@
 import ModbusModel.Model.Client
 import ModbusModel.Lemmas.Chunking
 import ModbusModel.Lemmas.Client
+import ModbusModel.Lemmas.Framed
 /-
   A call on a healthy client over a transport that takes the request: the reply frame, cut
   into reads in any way, comes back as the verdict on exactly that reply.
@@ -157,5 +158,86 @@ theorem call_wclean (c : Client) (req : Request) (t : Transport) (b : Budget)
           | abandoned => simp [Client.wbuf, h1, h2]
           | blocked => simp [Client.wbuf, h1, h2]
           | done p => cases p <;> simp [Client.wbuf, h1, h2])
+
+end Modbus
+
+namespace Modbus
+
+theorem awaitNextB_ne_panic {σ ι} (D : Decoder σ ι) (h : D.NoPanic) :
+    ∀ (n : Nat) (s : σ) (r : ReadFrame) (evs : List ReadEv) (b : Budget),
+      (awaitNextB D n s r evs b).1 ≠ .done .panic := by
+  intro n
+  induction n with
+  | zero => intro s r evs b; simp [awaitNextB]
+  | succ n ih =>
+    intro s r evs b
+    unfold awaitNextB
+    have hp := pollNext_ne_panic D h evs s r
+    rcases hq : pollNext D s r evs with ⟨p, s1, r1, evs1⟩
+    rw [hq] at hp
+    cases p with
+    | pending =>
+      simp only
+      cases b.tick with
+      | none => simp
+      | some b' => exact ih s1 r1 evs1 b'
+    | panic => exact absurd rfl hp
+    | blocked => simp
+    | item x => simp
+    | done => simp
+    | error k => simp
+
+end Modbus
+
+namespace Modbus
+
+theorem awaitNextB_yields {σ ι} (D : Decoder σ ι) (x : ι) :
+    ∀ (n : Nat) (s : σ) (r : ReadFrame) (evs : List ReadEv) (b : Budget),
+      (awaitNextB D n s r evs b).1 = .done (.item x) → D.Yields x := by
+  intro n
+  induction n with
+  | zero => intro s r evs b h; simp [awaitNextB] at h
+  | succ n ih =>
+    intro s r evs b h
+    unfold awaitNextB at h
+    have hp := pollNext_item D x evs s r
+    rcases hq : pollNext D s r evs with ⟨p, s1, r1, evs1⟩
+    rw [hq] at hp h
+    cases p with
+    | pending =>
+      simp only at h
+      cases hb : b.tick with
+      | none => simp [hb] at h
+      | some b' => rw [hb] at h; exact ih s1 r1 evs1 b' h
+    | item y =>
+      simp only [Outcome.done.injEq, Polled.item.injEq] at h
+      subst h
+      exact hp rfl
+    | panic => simp at h
+    | blocked => simp at h
+    | done => simp at h
+    | error k => simp at h
+
+/-- what the client decoders yield is a header and a PDU the response decoder accepted -/
+theorem clientDecoder_yields (k : Kind) (rh : Hdr) (res : ResponseResult)
+    (h : (clientDecoder k).Yields (rh, res)) : ∃ pdu, decodeResponsePdu pdu = .ok res := by
+  obtain ⟨s, buf, s', b', hd⟩ := h
+  cases k with
+  | tcp =>
+    simp only [clientDecoder, tcpClientDecode] at hd
+    split at hd <;> simp [Res.map] at hd
+    rename_i hdr pdu _ _
+    cases hp : decodeResponsePdu pdu with
+    | ok r => rw [hp] at hd; simp at hd; exact ⟨pdu, by rw [hp, hd.1.2]⟩
+    | err e => rw [hp] at hd; simp at hd
+    | panic => rw [hp] at hd; simp at hd
+  | rtu =>
+    simp only [clientDecoder, rtuClientDecode] at hd
+    split at hd <;> simp [Res.map] at hd
+    rename_i slave pdu _ _ _
+    cases hp : decodeResponsePdu pdu with
+    | ok r => rw [hp] at hd; simp at hd; exact ⟨pdu, by rw [hp, hd.1.2]⟩
+    | err e => rw [hp] at hd; simp at hd
+    | panic => rw [hp] at hd; simp at hd
 
 end Modbus
